@@ -53,8 +53,8 @@ struct Limits : Profile {
         int n           = (int)r.range(8, thorough ? 40 : 30);
         static const int64_t lens[] = {63, 64, 65, 66, 127, 128, 129, 255, 256, 257, 1000, 70000};
         static const std::vector<int> w = {/*reserve*/ 14, /*farwrite*/ 6, /*small*/ 8, /*hlbig*/ 5, /*ref65535*/ 5, /*newrefs*/ 8, /*exhaust*/ 1, /*members*/ 4,
-                                           /*order*/ 6,    /*nfields*/ 5,  /*recsize*/ 4, /*name*/ 16, /*rank*/ 4,    /*sdbig*/ 6,    /*hopen*/ 2,   /*sdopen*/ 3, /*reopen*/ 5, /*appendfar*/ 6, /*seekfar*/ 5, /*sdrecbig*/ 3};
-        static const char *names[] = {"reserve", "farwrite", "small", "hlbig", "ref65535", "newrefs", "exhaust", "members", "order", "nfields", "recsize", "name", "rank", "sdbig", "hopen", "sdopen", "reopen", "appendfar", "seekfar", "sdrecbig"};
+                                           /*order*/ 6,    /*nfields*/ 5,  /*recsize*/ 4, /*name*/ 16, /*rank*/ 4,    /*sdbig*/ 6,    /*hopen*/ 2,   /*sdopen*/ 3, /*reopen*/ 5, /*appendfar*/ 6, /*seekfar*/ 5, /*sdrecbig*/ 3, /*sdcoordbig*/ 3};
+        static const char *names[] = {"reserve", "farwrite", "small", "hlbig", "ref65535", "newrefs", "exhaust", "members", "order", "nfields", "recsize", "name", "rank", "sdbig", "hopen", "sdopen", "reopen", "appendfar", "seekfar", "sdrecbig", "sdcoordbig"};
         for (int i = 0; i < n; i++) {
             int k = r.weighted(w);
             if (k == 6 && !thorough && !r.chance(0.3))
@@ -105,6 +105,9 @@ struct Limits : Profile {
                     break;
                 case 15:
                     p.ops.push_back(mkop(0, names[k], {r.range(-3, 6)}));
+                    break;
+                case 20: // how far the dimension is below 2^30 + 8
+                    p.ops.push_back(mkop(0, names[k], {(int64_t)r.below(16)}));
                     break;
                 case 19: // which record size, how many records
                     p.ops.push_back(mkop(0, names[k], {(int64_t)r.below(4), r.range(1, 3)}));
@@ -515,6 +518,40 @@ struct Limits : Profile {
                 SDend(bsd);
                 simfs::disk().erase(bf);
                 ctx.probe("records-of-tens-of-megabytes");
+            }
+            else if (k == "sdcoordbig") {
+                // a one-byte-per-cell dataset whose dimension is about 2^30 long is within the limit; the coordinate variable
+                // that SDsetdimstrs creates for the dimension (32-bit floats) would be 4 GiB and is not: the call is refused,
+                // and a refused call leaves no variable behind -- the file still counts two datasets and opens again
+                std::string bf  = strf("/sim/lim_sdcoord_%d.hdf", s.seq);
+                int32       bsd = SDstart(bf.c_str(), DFACC_CREATE);
+                if (bsd == FAIL)
+                    ctx.fail("unusable", "unusable:sdstart", "SDstart(create) failed");
+                int32 d1[1] = {3}, d2[1] = {(int32)((1 << 30) + 8 - (int32)modn(o.arg(0), 16))}, st[1] = {0};
+                int16 v[3] = {(int16)s.seq, 2, 3}, got[3] = {0, 0, 0};
+                int32 a = SDcreate(bsd, "small", DFNT_INT16, 1, d1);
+                if (a == FAIL || SDwritedata(a, st, NULL, d1, v) == FAIL || SDendaccess(a) == FAIL)
+                    ctx.fail("unusable", "unusable:sdcoordbig-setup", strf("setting up the file failed: %s", herr().c_str()));
+                int32 b = SDcreate(bsd, "bytes", DFNT_INT8, 1, d2);
+                if (b == FAIL)
+                    ctx.fail("unusable", "unusable:SDcreate-coordbig", strf("SDcreate refuses %d one-byte cells: %s", (int)d2[0], herr().c_str()));
+                int32 nds = 0, nat = 0;
+                intn  rc  = SDsetdimstrs(SDgetdimid(b, 0), "label", "unit", "%f");
+                ctx.tr((uint64_t)(int64_t)rc);
+                if (SDfileinfo(bsd, &nds, &nat) == FAIL || nds != (rc == FAIL ? 2 : 3))
+                    ctx.fail("retained", "retained:coordinate-variable-of-refused-call",
+                             strf("SDsetdimstrs on a dimension of %d cells returned %d; the file now counts %d datasets", (int)d2[0], (int)rc, (int)nds));
+                if (SDendaccess(b) == FAIL || SDend(bsd) == FAIL)
+                    ctx.fail("unusable", "unusable:sdend-coordbig", strf("closing the file fails: %s", herr().c_str()));
+                bsd = SDstart(bf.c_str(), DFACC_READ);
+                int32 ix = bsd == FAIL ? FAIL : SDnametoindex(bsd, "small"), id2 = ix == FAIL ? FAIL : SDselect(bsd, ix);
+                if (id2 == FAIL || SDreaddata(id2, st, NULL, d1, got) == FAIL || memcmp(got, v, sizeof got) != 0)
+                    ctx.fail("unusable", "unusable:sdstart-coordbig",
+                             strf("after SDsetdimstrs on a dimension of %d cells (returned %d) the file does not open again or the small dataset does not read back", (int)d2[0], (int)rc));
+                SDendaccess(id2);
+                SDend(bsd);
+                simfs::disk().erase(bf);
+                ctx.probe(rc == FAIL ? "coordinate-variable-too-big-refused" : "coordinate-variable-too-big-accepted");
             }
             else if (k == "seekfar") {
                 // an appendable element at the end of a file of its own: a seek far beyond its end and a write there.  The write
